@@ -240,6 +240,12 @@ Definition prune (b : bn) (Q : list var) (evidence : list (var * nat)) : bn * li
 
 (* ---- _virtual_evidence: for each (var, new node, likelihood vector v): edge var -> new, CPD of the
         binary new node over [new; var] = vstack(v, 1 - v); later entries replace earlier ones --------- *)
+(* A virtual evidence lists the states of its variable in [given] (indices into the model's own state list).
+   The code puts that list on the parent axis of the new CPD; BayesianNetwork.check_model (run by
+   Inference.__init__ on the augmented copy) then raises ValueError unless it IS the model's list.  So:
+   accepted iff the order is the model's; an accepted virtual evidence is applied positionally. *)
+Definition vev_accepted (model_states given : list nat) : bool :=
+  Nat.eqb (length model_states) (length given) && forallb (fun p => Nat.eqb (fst p) (snd p)) (combine model_states given).
 Definition virt_cpd (nv x : var) (vals : list Qc) : fac :=
   Build_factor R [nv; x] (vals ++ map (fun q => (1 - q)%Qc) vals).
 Definition add_virtual (b : bn) (ve : var * var * list Qc) : bn :=
